@@ -3,6 +3,7 @@
    hypothesis of the corresponding _partial theorem (i.e. a proved theorem contradicted: never expected) *)
 From Coq Require Import List NArith ZArith Bool.
 From Dae Require Import C09_Spec C09_Model.
+From Dae.gen Require Import C09_Route.
 Import ListNotations.
 Open Scope N_scope.
 
@@ -368,13 +369,59 @@ Definition sig_fcache (c : fcache_case) : N * N * N * N :=
    N.of_nat (length (filter (fun e => match e with KReload => true | _ => false end) (kc_events c)))).
 
 (* ------------------------------------------------------------------------------------------- *)
+(* one singleflight flight with clients of mixed kinds                                          *)
+(* ------------------------------------------------------------------------------------------- *)
+Fixpoint forallb2 {A B} (f : A -> B -> bool) (a : list A) (b : list B) : bool :=
+  match a, b with
+  | [], [] => true
+  | x :: a', y :: b' => f x y && forallb2 f a' b'
+  | _, _ => false
+  end.
+
+Definition flight_ok (wc nc : bool -> bool -> bool -> bool) (p : bool) (L : fclient) (Ws : list fclient)
+           (pb : pubpoint) (up : fres) : bool :=
+  forallb2 (flight_client_ok (flight_rcode L pb up)) (L :: Ws) (flight wc nc p L Ws pb up).
+
+Record flight_case := {
+  lc_p : bool;                       (* cached answers are served from pre-packed bytes *)
+  lc_leader : fclient;
+  lc_waiters : list fclient;
+  lc_pub : pubpoint;
+  lc_up : fres;
+  lc_obs : list (list message)       (* per client (leader first): every reply it received, in order *)
+}.
+
+Definition flight_hyp (c : flight_case) : bool :=
+  let k := key_of (cq_q (fc_q (lc_leader c))) in
+  forallb (fun x => ckey_eqb (key_of (cq_q (fc_q x))) k && (q_class (cq_q (fc_q x)) =? 1) && (fc_w x || fc_lc x))
+          (lc_leader c :: lc_waiters c)
+  && match lc_pub c with
+     | PNever => true
+     | PWindow e | PBefore e => (ce_name e =? fst k) && (ce_type e =? snd k) && forallb (rr_for_key k) (ce_ans e)
+     end
+  && fres_tagged (lc_up c).
+
+Definition check_flight (c : flight_case) : list N :=
+  let model := flight wcr_writer_cond wcr_noconn_cond (lc_p c) (lc_leader c) (lc_waiters c) (lc_pub c) (lc_up c) in
+  let rc := flight_rcode (lc_leader c) (lc_pub c) (lc_up c) in
+  (if list_eqb (list_eqb message_eqb) model (lc_obs c) then [] else [1])
+  ++ (if forallb2 (flight_client_ok rc) (lc_leader c :: lc_waiters c) (lc_obs c) then [] else [2])
+  ++ (if forallb2 (flight_client_ok rc) (lc_leader c :: lc_waiters c) model || negb (flight_hyp c) then [] else [3]).
+
+Definition sig_flight (c : flight_case) : N * N * N * N :=
+  (600 + N.of_nat (length (lc_waiters c)),
+   (if fc_lc (lc_leader c) then 1 else 0) + 2 * N.of_nat (length (filter fc_lc (lc_waiters c))),
+   match lc_pub c with PNever => 1 | PWindow _ => 2 | PBefore _ => 3 end,
+   flight_rcode (lc_leader c) (lc_pub c) (lc_up c)).
+
+(* ------------------------------------------------------------------------------------------- *)
 Inductive acase := AFwd (c : fwd_case) | APipe (c : pipe_case) | AUdp (c : udp_case) | ACtl (c : ctl_case)
-                 | AFcache (c : fcache_case).
+                 | AFcache (c : fcache_case) | AFlight (c : flight_case).
 
 Definition check_case (a : acase) : list N :=
   match a with AFwd c => check_fwd c | APipe c => check_pipe c | AUdp c => check_udp c | ACtl c => check_ctl c
-          | AFcache c => check_fcache c end.
+          | AFcache c => check_fcache c | AFlight c => check_flight c end.
 
 Definition case_signature (a : acase) : N * N * N * N :=
   match a with AFwd c => sig_fwd c | APipe c => sig_pipe c | AUdp c => sig_udp c | ACtl c => sig_ctl c
-          | AFcache c => sig_fcache c end.
+          | AFcache c => sig_fcache c | AFlight c => sig_flight c end.
